@@ -4,7 +4,7 @@
 import glob, json, os, re
 V = os.path.dirname(os.path.dirname(os.path.abspath(__file__)))
 rows, own_hit, other_hit, missed, total = [], 0, 0, 0, 0
-waves = {"": 1, "b": 2, "c": 3, "d": 4, "e": 5, "f": 6, "g": 7, "h": 8, "i": 9, "j": 10, "k": 11}
+waves = {"": 1, "b": 2, "c": 3, "d": 4, "e": 5, "f": 6, "g": 7, "h": 8, "i": 9, "j": 10, "k": 11, "l": 12}
 for d in sorted(glob.glob(os.path.join(V, "seeded", "C*", "meta.json"))):
     m = json.load(open(d))
     v = m.get("verification", {})
@@ -26,7 +26,7 @@ for d in sorted(glob.glob(os.path.join(V, "seeded", "C*", "meta.json"))):
     summ = re.sub(r"\s+", " ", m.get("summary") or "")
     summ = summ[:150] + ("..." if len(summ) > 150 else "")
     rows.append("| %s | %d | %s | %s | %s | %s | %s |" % (name, waves.get(name[3:], 0), files, summ, "yes" if ok else "NO", own_s, "; ".join(others) or "-"))
-head = ["%d kept seeded changes (11 waves; every one written by a fresh sub-agent from the property text and its own scratch worktree only, confirmed by `tools/seedeval.py`: "
+head = ["%d kept seeded changes (12 waves; every one written by a fresh sub-agent from the property text and its own scratch worktree only, confirmed by `tools/seedeval.py`: "
         "demonstration passes on HEAD, patch applies and builds, demonstration fails with the patch, the existing tests of the touched and the core packages pass with it). "
         "Result of the final fresh run of the QUICK tier against each changed tree: %d are caught by a check of their own property, %d only by a check of another property, %d by none."
         % (total, own_hit, other_hit, missed), "",
